@@ -159,6 +159,23 @@ func (msg *Message) Array() (*Array, error) {
 	return nil, fmt.Errorf(errorInvalidMessageType, msg.Type)
 }
 
+// lineSafeBytes returns the payload of a simple string, error or integer with
+// CR and LF replaced by spaces (as Redis does for error replies), because a raw
+// CR or LF would end the line early and let the rest be read as further replies.
+func lineSafeBytes(b []byte) []byte {
+	if bytes.IndexByte(b, cr) < 0 && bytes.IndexByte(b, lf) < 0 {
+		return b
+	}
+	safe := make([]byte, len(b))
+	for i, c := range b {
+		if c == cr || c == lf {
+			c = ' '
+		}
+		safe[i] = c
+	}
+	return safe
+}
+
 // RESPBytes returns the RESP byte representation.
 func (msg *Message) RESPBytes() ([]byte, error) {
 	var respBytes bytes.Buffer
@@ -170,7 +187,7 @@ func (msg *Message) RESPBytes() ([]byte, error) {
 			return nil, fmt.Errorf(errorUnknownMessageType, msg.Type)
 		}
 		respBytes.WriteByte(b)
-		respBytes.Write(msg.bytes)
+		respBytes.Write(lineSafeBytes(msg.bytes))
 		respBytes.WriteRune(cr)
 		respBytes.WriteRune(lf)
 	case BulkMessage:
